@@ -10,7 +10,7 @@ Definition pre_doc (size capacity : Z) (o : op) : bool :=
   | OFreeErase _ | OFreeEraseIf _ => true
   | OPushBack _ => size <? capacity                                   (* \pre size() < capacity() *)
   | OPopBack => negb (size =? 0)                                       (* \pre size() != 0 *)
-  | OAppendRange src => size + zlen src <=? capacity                   (* the range fits *)
+  | OAppendRange src | OAppendRangeIn src => size + zlen src <=? capacity   (* \pre distance(first, last) <= capacity() - size(), any iterator category *)
   | OInsertPtr index _ _ | OInsertFill index _ _ | OInsertCstr index _ => index <=? size
   | OErase index _ => index <=? size
   | OEraseRange start distance => (start <=? size) && (distance <=? size - start)   (* [first, last) is a range of *this *)
